@@ -186,8 +186,15 @@ func rulePassOrder(c *core.Ctx) {
 		if !ok {
 			return true
 		}
-		if sl, ok := info.TypeOf(cl).Underlying().(*types.Slice); ok {
-			if nt := core.NamedOf(sl.Elem()); nt != nil && nt.Obj().Name() == "ValidationPass" {
+		var elem types.Type
+		switch lt := info.TypeOf(cl).Underlying().(type) {
+		case *types.Slice:
+			elem = lt.Elem()
+		case *types.Array:
+			elem = lt.Elem()
+		}
+		if elem != nil {
+			if nt := core.NamedOf(elem); nt != nil && nt.Obj().Name() == "ValidationPass" {
 				litPos = cl.Pos()
 				for _, e := range cl.Elts {
 					if id, ok := e.(*ast.Ident); ok {
@@ -215,11 +222,57 @@ func rulePassOrder(c *core.Ctx) {
 	c.Tables["validation_passes"] = names
 	// the loop must run them in slice order: `for _, pass := range passes { env = pass(env, &errorSink) }`
 	okLoop := false
+	// the variable the literal is stored in, whatever it is called
+	var listVar types.Object
 	ast.Inspect(vd.Body, func(n ast.Node) bool {
-		if rs, ok := n.(*ast.RangeStmt); ok {
-			if id, ok := ast.Unparen(rs.X).(*ast.Ident); ok && id.Name == "passes" {
+		switch s := n.(type) {
+		case *ast.AssignStmt:
+			for i, r := range s.Rhs {
+				if cl, ok := ast.Unparen(r).(*ast.CompositeLit); ok && cl.Pos() == litPos && i < len(s.Lhs) {
+					listVar = identObj(info, s.Lhs[i])
+				}
+			}
+		case *ast.ValueSpec:
+			for i, r := range s.Values {
+				if cl, ok := ast.Unparen(r).(*ast.CompositeLit); ok && cl.Pos() == litPos && i < len(s.Names) {
+					listVar = info.Defs[s.Names[i]]
+				}
+			}
+		}
+		return true
+	})
+	ast.Inspect(vd.Body, func(n ast.Node) bool {
+		switch rs := n.(type) {
+		case *ast.RangeStmt:
+			if o := identObj(info, rs.X); o != nil && o == listVar {
 				okLoop = true
 			}
+			if cl, ok := ast.Unparen(rs.X).(*ast.CompositeLit); ok && cl.Pos() == litPos {
+				okLoop = true
+			}
+		case *ast.ForStmt:
+			// for i := 0; i < len(list); i++ { ... list[i](...) }
+			init, ok1 := rs.Init.(*ast.AssignStmt)
+			cond, ok2 := rs.Cond.(*ast.BinaryExpr)
+			post, ok3 := rs.Post.(*ast.IncDecStmt)
+			if !ok1 || !ok2 || !ok3 || len(init.Lhs) != 1 || len(init.Rhs) != 1 || post.Tok != token.INC || cond.Op != token.LSS {
+				return true
+			}
+			iv := identObj(info, init.Lhs[0])
+			if v, isC := constInt(info, init.Rhs[0]); !isC || v != 0 || iv == nil || identObj(info, post.X) != iv || identObj(info, cond.X) != iv {
+				return true
+			}
+			if a, isLen := lenArg(info, cond.Y); !isLen || identObj(info, a) != listVar || listVar == nil {
+				return true
+			}
+			ast.Inspect(rs.Body, func(m ast.Node) bool {
+				if ce, ok := m.(*ast.CallExpr); ok {
+					if ix, ok := ast.Unparen(ce.Fun).(*ast.IndexExpr); ok && identObj(info, ix.X) == listVar && identObj(info, ix.Index) == iv {
+						okLoop = true
+					}
+				}
+				return true
+			})
 		}
 		return true
 	})
